@@ -284,6 +284,45 @@ func init() {
 			},
 		})
 	}
+	badUTF8 := []string{"caf\xe9", "caf\xe8", "\xff", "\ufffd", "k\xfe", "k\xff", "ok", "\xed\xa0\x80", "\xc0\xaf"}
+	p.Strata = append(p.Strata, mon.Stratum{
+		Name:       "go-strings-with-invalid-utf8",
+		N:          n(len(badUTF8) * len(badUTF8) * 4 * 3),
+		Exhaustive: always,
+		Run: func(c *mon.Ctx, i int) {
+			// documents built with NewJsonNode from Go values (no JSON text can carry these bytes): strings and
+			// keys that differ only in bytes which are not valid UTF-8 are different values under every reading
+			nb := len(badUTF8)
+			x, y := badUTF8[i%nb], badUTF8[(i/nb)%nb]
+			how := (i / (nb * nb)) % 4
+			o := []OptSet{OptNone, OptSetO, OptMset}[(i/(nb*nb*4))%3]
+			wrap := func(s string) any {
+				switch how {
+				case 1:
+					return []any{s, "z"}
+				case 2:
+					return map[string]any{"k": []any{s}}
+				case 3:
+					return []any{map[string]any{s: 1.0}}
+				}
+				return s
+			}
+			A, e1 := jd.NewJsonNode(wrap(x))
+			B, e2 := jd.NewJsonNode(wrap(y))
+			c.Input("a_go", fmt.Sprintf("%q", x))
+			c.Input("b_go", fmt.Sprintf("%q", y))
+			c.Input("options", o.Name)
+			if e1 != nil || e2 != nil {
+				c.Skip("NewJsonNode refuses the value")
+				return
+			}
+			c.Feature("invalid_utf8_pairs")
+			c.Nontrivial(joinKey("bad", fmt.Sprintf("%q%q%d", x, y, how), o.Name))
+			if got, want := A.Equals(B, o.O()...), x == y; got != want {
+				c.Violation(fmt.Sprintf("Equals=%v for Go strings %q and %q (placement %d) under %s", got, x, y, how, o.Name), nil)
+			}
+		},
+	})
 	p.Strata = append(p.Strata, mon.Stratum{
 		Name:       "alias-strings",
 		N:          n(len(aliasNumbers) * 4 * 4),
